@@ -128,7 +128,10 @@ def roundtrip(case, failures, labels):
 
             tb = traceback.extract_tb(e.__traceback__)
             where = next((f"{fr.filename.split('/')[-1]}:{fr.name}" for fr in reversed(tb) if "/naunet/" in fr.filename), "?")
-            failures.append((f"roundtrip/raises/{type(e).__name__}@{where}", f"{fmt}: first write/read cycle: {type(e).__name__}: {e}"))
+            key = f"roundtrip/raises/{type(e).__name__}@{where}"
+            if fmt == "leeds" and "unrecognizable" in str(e) and any(s.is_surface for r in net0.reaction_list for s in r.reactants + r.products):
+                key = "roundtrip/raises/non-default-surface-prefix"  # the native reader parses species with the default '#'
+            failures.append((key, f"{fmt}: first write/read cycle: {type(e).__name__}: {e}"))
             return True
         v0 = [rview(r) for r in net0.reaction_list]
         v1 = [rview(r) for r in net1.reaction_list]
